@@ -231,3 +231,54 @@ func selectLeaves(ls []cborLeaf, budget int) []cborLeaf {
 	}
 	return out
 }
+
+// cborHead encodes a CBOR head (major type, argument) in its shortest form.
+func cborHead(major byte, arg uint64) []byte {
+	m := major << 5
+	switch {
+	case arg < 24:
+		return []byte{m | byte(arg)}
+	case arg < 1<<8:
+		return []byte{m | 24, byte(arg)}
+	case arg < 1<<16:
+		return []byte{m | 25, byte(arg >> 8), byte(arg)}
+	case arg < 1<<32:
+		return []byte{m | 26, byte(arg >> 24), byte(arg >> 16), byte(arg >> 8), byte(arg)}
+	default:
+		out := []byte{m | 27}
+		for s := 56; s >= 0; s -= 8 {
+			out = append(out, byte(arg>>uint(s)))
+		}
+		return out
+	}
+}
+
+// withContent returns a copy of b in which this byte-string / text-string leaf has the given
+// content (the head is re-encoded for the new length); nil for other kinds of leaves.
+func (l cborLeaf) withContent(b []byte, content []byte) []byte {
+	if l.kind != 'b' && l.kind != 's' {
+		return nil
+	}
+	out := append([]byte{}, b[:l.headPos]...)
+	out = append(out, cborHead(b[l.headPos]>>5, uint64(len(content)))...)
+	out = append(out, content...)
+	return append(out, b[l.end:]...)
+}
+
+// lengthVariants: the leaf extended by 1, 16, 32 bytes as a suffix and as a zero prefix, and
+// truncated by one byte.
+func (l cborLeaf) lengthVariants(b []byte, fill func(n int) []byte) map[string][]byte {
+	if l.kind != 'b' && l.kind != 's' {
+		return nil
+	}
+	c := b[l.start:l.end]
+	out := map[string][]byte{}
+	for _, k := range []int{1, 16, 32} {
+		out[fmt.Sprintf("suffix%d", k)] = l.withContent(b, append(append([]byte{}, c...), fill(k)...))
+		out[fmt.Sprintf("zeroprefix%d", k)] = l.withContent(b, append(make([]byte, k), c...))
+	}
+	if len(c) > 0 {
+		out["truncate1"] = l.withContent(b, c[:len(c)-1])
+	}
+	return out
+}
